@@ -96,6 +96,17 @@ func runC14(t *testing.T, cases []map[string]interface{}, ev *vEvents) {
 			w.st.Config.Base.EnableLocalTOTP = true
 			w.armTOTP("alice")
 			ck := map[string]string{authCookieName: w.mintCookie("alice", AuthTypePassword, 0)}
+			outage := vStr(c, "store") == "outage"
+			if outage {
+				// the primary store is down (and says so at once); profiles come from the replica, which is up to date:
+				// the limiter lives in memory and counts all the same
+				vMust(copyDBIntoSQLite(w.st.db, w.st.cacheDB, "sqlite"))
+				prim, _ := w.regate()
+				prim.mu.Lock()
+				prim.refuse = true
+				prim.mu.Unlock()
+				w.st.remoteDBQueryTimeout = 40 * time.Millisecond
+			}
 			emit(map[string]interface{}{"ev": "Reset", "trace": ci})
 			steps, _ := c["steps"].([]interface{})
 			for _, s := range steps {
@@ -126,7 +137,7 @@ func runC14(t *testing.T, cases []map[string]interface{}, ev *vEvents) {
 				}
 				r := w.Do(vReq{Method: "POST", Path: totpAuthPath, Cookies: ck, Form: url.Values{"OTP": {code}}})
 				accepted := r.Status == 200
-				if accepted {
+				if accepted && !outage { // (from the replica nothing is written: the code stays fresh by itself)
 					// the replay guard of C05 is not this model's business: make the current code fresh again
 					p, _, _, err := w.st.LoadUserProfile("alice")
 					vMust(err)
